@@ -277,6 +277,10 @@ func (c *ctx) replay(lines []string) {
 				}
 				continue
 			}
+			if strings.HasPrefix(f[2], "pubsub.") && find(f[2]) == nil {
+				pubsubCase(c, sub, "replay")
+				continue
+			}
 			switch f[2] {
 			case "form.Data":
 				formCase(c, sub, bad, "replay")
@@ -347,6 +351,12 @@ func Run(r *common.Run) error {
 			r.Mark("case %s %d", strings.ReplaceAll(e.name, " ", "_"), k)
 			e.one(c, r.Rnd.Uint64(), k%6 == 5, "random")
 		}
+	}
+	// pubsub request builders on a real session
+	nPub := r.Pick(60, 600)
+	for k := 0; k < nPub; k++ {
+		r.Mark("case pubsub %d", k)
+		pubsubCase(c, r.Rnd.Uint64(), "random")
 	}
 	// arbitrary XML into every unmarshaller
 	nXML := r.Pick(150, 2500)
